@@ -282,6 +282,52 @@ def h_hist_pair(ctx, cls, tier, first, cls_first=None, cost_first=None):
     ctx.cover("__nontrivial__")
 
 
+def h_hist_long(ctx, cls, tier):
+    """A long history: every instance of the class box is built (and exhausted, advanced or only
+    constructed) once, then every instance is built AGAIN -- in the same or in reverse order --
+    and its stream compared with the fresh-interpreter baseline.  Aims at caches with a capacity /
+    eviction policy, which two-operation histories cannot fill."""
+    silence_repo_output()
+    box = pair_box(cls, tier)
+    base = pair_baseline(cls, tier)
+    how = ctx.choice("how", ["exhaust", "advance", "construct-only"])
+    order = ctx.choice("order", ["same", "reverse", "interleaved"])
+    keep = []
+    try:
+        for spec in box:
+            lv = Live(spec)
+            if how == "exhaust":
+                lv.run()
+            elif how == "advance":
+                for _ in range(4):
+                    lv.step()
+                keep.append(lv)
+        idx = list(range(len(box)))
+        if order == "reverse":
+            idx.reverse()
+        elif order == "interleaved":
+            idx = idx[::2] + idx[1::2]
+        bad = None
+        for t in idx:
+            got = [tuple(a) for a in Live(box[t]).run()]
+            if got != base[t]:
+                k = 0
+                while k < min(len(got), len(base[t])) and got[k] == base[t][k]:
+                    k += 1
+                bad = (box[t], k, got[k:k + 2], base[t][k:k + 2])
+                break
+    except PathAbort:
+        raise
+    except Exception as e:                                  # noqa: BLE001
+        ctx.fail("C15.stream_differs", {"long_history_of": cls, "exc": repr(e)})
+    ctx.trace(("long", cls, how, order, bad is None))
+    ctx.require(bad is None, "C15.stream_differs",
+                lambda: {"target": bad[0], "history": "all %d instances of the %s box (%s), then rebuilt in %s order"
+                         % (len(box), cls, how, order), "first_difference_at": bad[1], "got": bad[2],
+                         "fresh_interpreter": bad[3]})
+    ctx.cover("__nontrivial__")
+
+
 if __name__ == "__main__":
     if len(sys.argv) > 1 and sys.argv[1] == "pair":
         silence_repo_output()
